@@ -79,6 +79,9 @@ def register(reg):
 
     # ---- pages are written for visible own-page objects only --------------------------------------------------
     reg.ghosts['written'] = 'Seq[Str]'          # file names opened for writing, in order
+    reg.assume_ext('urllib.parse.unquote', params={'s': 'Str'}, returns='Str', raises={}, pure=True, result_is='unq(s)',
+                   source='CPython urllib: percent-decoding (inverse of quote on every text quote produces)')
+    reg.assume_ext('unquote', params={'s': 'Str'}, returns='Str', raises={}, pure=True, result_is='unq(s)', source='CPython urllib')
     reg.assume_ext('<Path>.joinpath', params={'p': 'Obj[Path]', 'name': 'Str'}, returns='Obj[Path]', raises={},
                    ensures=['path_name(result) == name'], source='pathlib: build_directory / relative name')
     reg.assume_ext('<Path>.open', params={'p': 'Obj[Path]', 'mode': 'Str'}, returns='Obj[File]', raises={}, modifies=['written'],
@@ -95,7 +98,7 @@ def register(reg):
                  lets={'cs': 'list(ob.contents.values())'},
                  loops={0: Loop(index='i', modifies=['written', 'total_pages', 'written_pages'], invariant=[
                      'implies(not self.dry_run, written == old(written) + '
-                     '([ob.url] if ob.documentation_location is DocLocation.OWN_PAGE else pages_of(cs, 0)) + pages_of(cs, i))',
+                     '([unq(ob.url)] if ob.documentation_location is DocLocation.OWN_PAGE else pages_of(cs, 0)) + pages_of(cs, i))',
                      'implies(self.dry_run, written == old(written))'])})
     reg.contract(PG, 'assembleList', params={'system': 'Ref[System]', 'label': 'Str', 'lst': 'Seq[Str]', 'page_url': 'Str'},
                  region={'name': 'filter', 'start': 'lst2 = []', 'end': 'if not lst:'},
